@@ -161,6 +161,7 @@ type SrvFid struct {
 	sync.Mutex
 	fid       uint32
 	refcount  int
+	destroyed bool        // FidDestroy has been called
 	opened    bool        // True if the SrvFid is opened
 	Fconn     *Conn       // Connection the SrvFid belongs to
 	Omode     uint8       // Open mode (O* flags), if the fid is opened
@@ -531,7 +532,21 @@ func (fid *SrvFid) DecRef() {
 	delete(conn.fidpool, fid.fid)
 	conn.Unlock()
 
-	if fop, ok := (conn.Srv.ops).(SrvFidOps); ok {
+	fid.destroy()
+}
+
+// destroy reports the fid to the file server as destroyed, once: a request still
+// using the fid when its connection closes drops its reference afterwards.
+func (fid *SrvFid) destroy() {
+	fid.Lock()
+	done := fid.destroyed
+	fid.destroyed = true
+	fid.Unlock()
+	if done {
+		return
+	}
+
+	if fop, ok := (fid.Fconn.Srv.ops).(SrvFidOps); ok {
 		fop.FidDestroy(fid)
 	}
 }
